@@ -10,13 +10,13 @@ package main
 // generated output ("err" if it does not load); "-" for the other templates.
 
 import (
-	"time"
-	"os"
 	"bytes"
 	"encoding/hex"
 	"fmt"
 	"math/big"
+	"os"
 	"strings"
+	"time"
 
 	"github.com/mmcloughlin/addchain"
 	"github.com/mmcloughlin/addchain/acc"
